@@ -108,6 +108,20 @@ fn run_one(scv: &Value, sh: &Shared) -> Value {
         ChildEnd::Report(v) => {
             // a child whose heap was corrupted by wild execution can hand back a damaged report:
             // every violation must be a well-formed {tag, props, detail}
+            if let Some(msg) = v.get("escaped_panic").and_then(|m| m.as_str()) {
+                let prop = match kind.as_str() {
+                    "async" => "C14",
+                    "count" => if scv["profile"] == "C07" { "C07" } else { "C06" },
+                    "crash" => "C05",
+                    "sigs" => "C09",
+                    "cycles" => "C12",
+                    "crt" => "C02",
+                    "probe" => if scv["profile"] == "C10" { "C10" } else { "C13" },
+                    _ => scv["profile"].as_str().unwrap_or("C01"),
+                };
+                return json!({"violations": [{"tag": "library-panicked-where-no-panic-is-due", "props": [prop, "C05"], "detail": format!("a panic escaped the scenario at a point where the unchanged tree never panics (after lifetime {}, step {}, phase {}): {msg:?}", sh.get(1), sh.get(2), sh.get(0))}],
+                              "digest": "000000000000e5c9", "died": "escaped-panic"});
+            }
             let well_formed = v.get("skipped").is_some()
                 || (v["violations"].is_array()
                     && v["digest"].is_string()
@@ -170,8 +184,12 @@ fn generate(family: &str, profile: &str, seed: u64, index: u64) -> Value {
 fn main() {
     contain::ensure_no_aslr();
     let args: Vec<String> = std::env::args().collect();
-    std::panic::set_hook(Box::new(|_| {
+    let show = std::env::var("VERIF_SHOW_PANICS").is_ok();
+    std::panic::set_hook(Box::new(move |info| {
         count::PANICS.fetch_add(1, std::sync::atomic::Ordering::SeqCst);
+        if show {
+            eprintln!("[panic] {info}");
+        }
     }));
     let sh = Shared::new();
     match args.get(1).map(|s| s.as_str()) {
@@ -197,6 +215,9 @@ fn main() {
                 (it.next().unwrap().parse::<u64>().unwrap(), it.next().unwrap().parse::<u64>().unwrap())
             };
             let want_prop = arg(&args, "--prop").map(|s| s.to_string());
+            // Some(p): only scenarios whose index has parity p (the driver runs the other half on
+            // the other build of this binary)
+            let parity: Option<u64> = arg(&args, "--parity").and_then(|s| s.parse().ok());
             let mut evaluations = 0u64;
             let mut nontrivial = 0u64;
             let mut skipped = 0u64;
@@ -213,6 +234,12 @@ fn main() {
             let mut samples = Vec::new();
             let mut idx = si;
             while idx < count {
+                if let Some(p) = parity {
+                    if idx % 2 != p {
+                        idx += sn;
+                        continue;
+                    }
+                }
                 let scv: Value = generate(&family, &profile, seed, idx);
                 let out = run_one(&scv, &sh);
                 if out.get("harness_error").is_some() {
